@@ -464,6 +464,133 @@ class G:
             self.obs.append("!%s" % p)
             self.feat("await", "closures")
 
+    def sc_chain_dispatch(self):
+        """multi-branch dispatch whose conditions are CHAINS of several type / pattern tests on ONE
+        provenance (the parameter, a field `$.k`, a field of a field, a bound alias) over
+        OVERLAPPING alias unions, followed by branches that rely on the complement (a variant
+        pattern that needs no run-time check once the complement is right, field access and
+        arithmetic on the narrowed part); called with every variant.  The generator tracks the
+        TRUE set of variants that can reach each branch, so everything it writes is well-typed
+        for a compiler whose narrowing is exact or weaker (weaker = a compile error, no verdict)."""
+        r = self.rng
+        names = r.sample(NAMES, r.randint(3, 5))
+        variants = []
+        for nm in names:
+            variants.append(tup(nm, [(None, self.scalar())] if self.chance(0.75) else []))
+        tname = self.fresh("w")
+        self.aliases.append("'%s = %s" % (tname, " | ".join(ty_src(v) for v in variants)))
+        subsets = []
+        for _ in range(r.randint(2, 3)):
+            k = r.randint(1, len(variants) - 1)
+            sub = r.sample(variants, k)
+            sub = [v for v in variants if v in sub]
+            sname = self.fresh("w")
+            self.aliases.append("'%s = %s" % (sname, " | ".join(ty_src(v) for v in sub)))
+            subsets.append((sname, sub))
+        shape = r.choice(["param", "field", "field", "labelled_field", "nested_field", "bound_alias", "bound_field"])
+        self.feat("chained_tests", "overlapping_aliases", "chain_shape_" + shape, "unions", "narrowing_by_branch_order")
+        T = "'" + tname
+        if shape in ("param", "bound_alias"):
+            ptype = T
+            mkarg = lambda lit: lit
+        elif shape in ("field", "bound_field"):
+            ptype = "[%s, 'int]" % T
+            mkarg = lambda lit: "[%s, %d]" % (lit, r.randint(0, 9))
+        elif shape == "labelled_field":
+            ptype = "[v: %s, n: 'int]" % T
+            mkarg = lambda lit: "[v: %s, n: %d]" % (lit, r.randint(0, 9))
+        else:
+            ptype = "[['int, %s], 'bin]" % T
+            mkarg = lambda lit: "[[%d, %s], 0x01]" % (r.randint(0, 9), lit)
+        P = {"param": "$", "field": "$.0", "labelled_field": "$.v", "nested_field": "$.0.1",
+             "bound_alias": "x", "bound_field": "y"}[shape]
+
+        def vpat(v, binder=None):
+            if not v[2]:
+                return v[1]
+            return "%s[%s]" % (v[1], binder or "_")
+
+        def whole_pattern(v, binder):
+            """a pattern on the WHOLE parameter selecting variant v at the provenance"""
+            inner = vpat(v, binder)
+            if shape == "param":
+                return "=" + inner
+            if shape == "field":
+                return "=[%s, _]" % inner
+            if shape == "labelled_field":
+                return "=[v: %s, n: _]" % inner
+            if shape == "nested_field":
+                return "=[[_, %s], _]" % inner
+            return "%s =%s" % (P, inner)            # bound alias: test the alias itself
+
+        def test(remaining):
+            """one failable test on P: (source, set of variants it accepts)"""
+            k = r.random()
+            if k < 0.5:
+                sname, sub = r.choice(subsets)
+                if self.chance(0.25):
+                    self.feat("as_patterns")
+                    return "%s =('%s)%s" % (P, sname, self.fresh("z")), sub
+                self.feat("type_tests")
+                return "%s ='%s" % (P, sname), sub
+            if k < 0.8:
+                v = r.choice(variants)
+                return "%s =%s" % (P, vpat(v)), [v]
+            vs = r.sample(variants, 2)
+            self.feat("or_patterns")
+            return "%s =(%s)" % (P, " | ".join(vpat(v) for v in vs)), vs
+
+        remaining = list(variants)
+        branches = []
+        nb = r.randint(2, 4)
+        chains = 0
+        for bi in range(nb):
+            if not remaining:
+                break
+            want_chain = chains == 0 or self.chance(0.45)
+            if want_chain and bi < nb - 1:
+                m = r.choice([1, 2, 2, 2, 3])
+                tests, acc = [], list(remaining)
+                for _ in range(m):
+                    src, accepted = test(remaining)
+                    tests.append(src)
+                    acc = [v for v in acc if v in accepted]
+                branches.append("%s => %d" % (", ".join(tests), r.randint(100, 199)))
+                remaining = [v for v in remaining if v not in acc]
+                chains += 1
+                if m >= 2:
+                    self.feat("chain_len_%d" % m)
+            else:
+                # rely on the complement
+                v = r.choice(remaining)
+                if len(remaining) == 1 and v[2] and self.chance(0.5):
+                    # only v can arrive: its field is accessible on the narrowed provenance
+                    branches.append(self.use(v[2][0][1], "%s.0" % P))
+                    self.feat("complement_field_access")
+                    remaining = []
+                    break
+                if v[2]:
+                    b = self.fresh("b")
+                    branches.append("%s => %s" % (whole_pattern(v, b), self.use(v[2][0][1], b)))
+                else:
+                    branches.append("%s => %d" % (whole_pattern(v, None), r.randint(200, 299)))
+                self.feat("complement_pattern")
+                remaining = [u for u in remaining if u != v]
+        branches.append(str(r.randint(0, 9)))
+        f = self.fresh("d")
+        body = " | ".join(branches)
+        if shape == "bound_alias":
+            self.steps.append("%s = #%s { x = $, x { | %s } }" % (f, ptype, body))
+            self.feat("bound_alias_provenance")
+        elif shape == "bound_field":
+            self.steps.append("%s = #%s { y = $.0, y { | %s } }" % (f, ptype, body))
+            self.feat("bound_alias_provenance")
+        else:
+            self.steps.append("%s = #%s { | %s }" % (f, ptype, body))
+        for v in variants:
+            self.obs.append("%s %s" % (mkarg(self.lit(v)), f))
+        self.obs.append("&" + f)
+
     def sc_core(self):
         """a plain core-language expression of a random type (c02gen): blocks, matches mid-chain,
         strings, spreads, closures over rebinding"""
@@ -497,7 +624,7 @@ class G:
     def program(self):
         r = self.rng
         self.probe_budget = r.random() < 0.35
-        scen = [(self.sc_union_dispatch, 4), (self.sc_scalar_tests, 3), (self.sc_partial, 3), (self.sc_generic, 4),
+        scen = [(self.sc_chain_dispatch, 7), (self.sc_union_dispatch, 4), (self.sc_scalar_tests, 3), (self.sc_partial, 3), (self.sc_generic, 4),
                 (self.sc_list, 4), (self.sc_tail, 3), (self.sc_closure, 3), (self.sc_tuple_ops, 2), (self.sc_nil_flow, 3),
                 (self.sc_process, 2), (self.sc_core, 2), (self.sc_annotated, 2)]
         k = r.choice([1, 1, 2, 2, 3])
